@@ -2088,21 +2088,14 @@ class unyt_array(np.ndarray):
         elif ufunc is divmod_ and u0.same_dimensions_as(u1):
             # quotient of commensurable operands: a pure number; remainder: units of u0
             quotient, rem = out_arr
-            out_arr = ret_class(quotient, Unit(registry=unit.registry)), ret_class(rem, unit)
+            out_arr = (
+                _wrap_ufunc_result(quotient, Unit(registry=unit.registry), ret_class),
+                _wrap_ufunc_result(rem, unit, ret_class),
+            )
         elif ufunc in (modf, divmod_):
-            out_arr = tuple(ret_class(o, unit) for o in out_arr)
-        elif out_arr.shape == ():
-            out_arr = unyt_quantity(np.asarray(out_arr), unit)
-        elif out_arr.size == 1:
-            out_arr = unyt_array(np.asarray(out_arr), unit)
+            out_arr = tuple(_wrap_ufunc_result(o, unit, ret_class) for o in out_arr)
         else:
-            if issubclass(ret_class, unyt_quantity):
-                # This happens if you do ndarray * unyt_quantity.
-                # Explicitly casting to unyt_array avoids creating a
-                # unyt_quantity with size > 1
-                out_arr = unyt_array(out_arr, unit)
-            else:
-                out_arr = ret_class(out_arr, unit, bypass_validation=True)
+            out_arr = _wrap_ufunc_result(out_arr, unit, ret_class)
         if out is not None:
             if mul != 1:
                 # scale the bare view: out still carries its old unit, so
@@ -2294,6 +2287,20 @@ class unyt_array(np.ndarray):
         except TypeError:
             # subclasses might not take name as a kwarg
             return type(self)(ret, copy.deepcopy(self.units))
+
+
+def _wrap_ufunc_result(out_arr, unit, ret_class):
+    """Attach *unit* to one result of a ufunc: scalars are quantities"""
+    if out_arr.shape == ():
+        return unyt_quantity(np.asarray(out_arr), unit)
+    elif out_arr.size == 1:
+        return unyt_array(np.asarray(out_arr), unit)
+    elif issubclass(ret_class, unyt_quantity):
+        # This happens if you do ndarray * unyt_quantity.
+        # Explicitly casting to unyt_array avoids creating a
+        # unyt_quantity with size > 1
+        return unyt_array(out_arr, unit)
+    return ret_class(out_arr, unit, bypass_validation=True)
 
 
 class unyt_quantity(unyt_array):
